@@ -6,6 +6,7 @@
      receipts RS                       -> ok ROOT BLOOM  (RS = post:cumulative:logs ,...; logs = addr/topics/data ;...; topics = t|t)
      import HDR TXS UNCLES err         -> rejected REASON | accepted ROOT USED
      import HDR TXS UNCLES ok ROOT RS  -> (RS = post:gasused:logs per transaction, from the real StateProcessor; ROOT = its IntermediateRoot)
+     stateroot ACCTS                   -> ok ROOT        (ACCTS = addr:nonce:balance:storageroot:codehash ,...; IntermediateRoot of the composed model)
      build HDR CANDS UNCLES TXGAS ROOT ORACLE -> ok HEADERRLP NTX USED
                                           (ORACLE = per candidate `skip` or post:gasused:logs) *)
 open Model
@@ -78,6 +79,17 @@ let handle (toks : string list) : string =
     (match k_derive_sha_code (List.map (receipt_rlp kh) rs) with
      | Some code when code = root -> "ok " ^ hex_of_bytes root ^ " " ^ bloom_hex (receipts_bloom kh rs)
      | _ -> "driver-error spec-code-mismatch")
+  | ["stateroot"; l] ->
+    (* accounts addr:nonce:balance:storageroot:codehash in the order sent; the root must not depend
+       on the order in which they are fed to the trie: computed as sent and reversed *)
+    let acct (s : string) =
+      (match String.split_on_char ':' s with
+       | [a; nn; b; r; ch] -> (n_of_string a, { bal = z_of_string b; nonce = n_of_string nn; code = n_of_string ch; stor = n_of_string r })
+       | _ -> failwith "parse account") in
+    let st = List.map acct (list_of l) in
+    let r1 = tx_state_root kh (fun x -> x) st in
+    let r2 = tx_state_root kh List.rev st in
+    if r1 = r2 then "ok " ^ hex_of_bytes r1 else "driver-error root-depends-on-order"
   | "import" :: hdr :: txs :: uncles :: proc ->
     let b = { b_header = parse_header hdr; b_txs = List.map bytes_of_hex (list_of txs);
               b_uncles = List.map parse_header (list_of uncles) } in
